@@ -150,9 +150,10 @@ impl FastCompiler {
         let mut po = PanicOccurrences::default();
         let mut pco = PanickingCallOccurrences::default();
         let (t, fin) = {
-            let mut ir = match compile_program(&typed, &mut po, &mut pco, false, &self.engines, self.exp, Default::default()) {
-                Ok(ir) => ir,
-                Err(errs) => return Err(CompileFail { errors: errs.iter().map(|e| e.to_string()).collect(), internal: true, stage: "irgen" }),
+            let mut ir = match catch(|| compile_program(&typed, &mut po, &mut pco, false, &self.engines, self.exp, Default::default())) {
+                Ok(Ok(ir)) => ir,
+                Ok(Err(errs)) => return Err(CompileFail { errors: errs.iter().map(|e| e.to_string()).collect(), internal: true, stage: "irgen" }),
+                Err(p) => return Err(CompileFail { errors: vec![format!("PANIC at {}: {}", p.location, p.message)], internal: true, stage: "panic" }),
             };
             let (t, cont) = f(&mut ir, &self.engines, self.exp);
             if !cont {
@@ -197,6 +198,62 @@ impl FastCompiler {
     }
 }
 
+
+/// A type-checked program from which fresh initial IR can be produced any number of times.
+pub struct TypedProgram {
+    pub programs: Programs,
+    pub cfg: BuildConfig,
+}
+impl FastCompiler {
+    /// Parse + type check only (OptLevel is irrelevant before IR generation; Opt0 config is kept for the backend).
+    pub fn typed(&mut self, src: &str) -> Result<TypedProgram, CompileFail> {
+        let (progs, handler, cfg) = match catch(|| self.to_ast(src, OptLevel::Opt0)) {
+            Ok(r) => r,
+            Err(p) => return Err(CompileFail { errors: vec![format!("PANIC at {}: {}", p.location, p.message)], internal: true, stage: "panic" }),
+        };
+        match progs {
+            Ok(p) if p.typed.is_ok() && !handler.has_errors() => Ok(TypedProgram { programs: p, cfg }),
+            _ => Err(Self::fail(handler, "ast")),
+        }
+    }
+    /// Fresh initial IR of `t` (what compile_ast_to_ir_to_asm starts from, before any pass) handed to `f`, which may
+    /// transform it and says whether to continue to the real backend (compile_ir_context_to_finalized_asm +
+    /// asm_to_bytecode). Can be called any number of times per typed program.
+    pub fn with_fresh_ir<T>(&self, t: &TypedProgram, f: impl FnOnce(&mut sway_ir::Context) -> (T, bool)) -> Result<(T, Option<Result<Vec<u8>, CompileFail>>), CompileFail> {
+        let typed = t.programs.typed.as_ref().unwrap().clone();
+        let mut po = PanicOccurrences::default();
+        let mut pco = PanickingCallOccurrences::default();
+        let (v, fin) = {
+            let mut ir = match catch(|| compile_program(&typed, &mut po, &mut pco, false, &self.engines, self.exp, Default::default())) {
+                Ok(Ok(ir)) => ir,
+                Ok(Err(errs)) => return Err(CompileFail { errors: errs.iter().map(|e| e.to_string()).collect(), internal: true, stage: "irgen" }),
+                Err(p) => return Err(CompileFail { errors: vec![format!("PANIC at {}: {}", p.location, p.message)], internal: true, stage: "panic" }),
+            };
+            let (v, cont) = f(&mut ir);
+            if !cont {
+                return Ok((v, None));
+            }
+            let handler = Handler::default();
+            let fin = match compile_ir_context_to_finalized_asm(&handler, &ir, Some(&t.cfg)) {
+                Ok(f) if !handler.has_errors() => Ok(f),
+                _ => Err(Self::fail(handler, "backend")),
+            };
+            (v, fin)
+        };
+        let fin = match fin {
+            Ok(f) => f,
+            Err(e) => return Ok((v, Some(Err(e)))),
+        };
+        let handler = Handler::default();
+        let mut asm = CompiledAsm { finalized_asm: fin, panic_occurrences: po, panicking_call_occurrences: pco };
+        let bc = match asm_to_bytecode(&handler, &mut asm, &mut SourceMap::new(), self.engines.se(), &t.cfg) {
+            Ok(b) if !handler.has_errors() => Ok(b.bytecode),
+            _ => Err(Self::fail(handler, "bytecode")),
+        };
+        Ok((v, Some(bc)))
+    }
+}
+
 impl Drop for FastCompiler {
     fn drop(&mut self) {
         let _ = std::fs::remove_dir_all(&self.dir);
@@ -216,6 +273,16 @@ pub fn with_fastc<T>(recycle: u64, f: impl FnOnce(&mut FastCompiler) -> T) -> T 
         }
         f(c.as_mut().unwrap())
     })
+}
+/// After a compiler panic was caught, the engines of this thread may still hold locks that the unwinding never released
+/// (the next compilation, or dropping them, then blocks forever): leak the thread's compiler instead of dropping it.
+pub fn forget_thread_fastc() {
+    TL_FASTC.with(|c| {
+        if let Some(fc) = c.borrow_mut().take() {
+            let _ = std::fs::remove_dir_all(&fc.dir);
+            std::mem::forget(fc);
+        }
+    });
 }
 pub fn drop_thread_fastc() {
     TL_FASTC.with(|c| *c.borrow_mut() = None);
